@@ -75,6 +75,19 @@ class Const(Shape):
         return self.v
 
 
+class OneOf(Shape):
+    """One of finitely many concrete values (the exploration forks over them)."""
+
+    def __init__(self, values):
+        self.values = list(values)
+
+    def fresh(self, ctx, name):
+        k = ctx.fresh_int(name + '_choice')
+        ctx.assume_type(z3.And(k >= 0, k < len(self.values)))
+        i = ctx.decide_among(k, list(range(len(self.values))))
+        return self.values[i]
+
+
 class Card(Shape):
     def fresh(self, ctx, name):
         r = ctx.fresh_int(name + '_rank')
